@@ -50,5 +50,6 @@ run C01 cubed/core/ops.py 'bi = block_id\[axis\] % split_every' 'bi = (block_id[
 run C01 cubed/core/ops.py '        dtype=dtype,\n        include_initial=True,\n    \)' '        dtype=dtype,\n        include_initial=False,\n    )' --only 'ops:scan'
 run C01 cubed/core/ops.py 'bi // split_every if i == axis else bi for i, bi in enumerate\(out_coords\)' '0 if i == axis else bi for i, bi in enumerate(out_coords)' --only 'ops:scan'
 run C01 cubed/array_api/linear_algebra_functions.py 'x2_ind = tuple\(range\(x1.ndim - 2\)\) \+ \(x1_ind\[-1\], x1.ndim\)' 'x2_ind = tuple(range(x1.ndim - 2)) + (x1.ndim, x1_ind[-1])' --only matmul
+run C01 cubed/core/indexing.py 'sel.append\(slice\(start\[j\], start\[j \+ 1\], step\)\)' 'sel.append(slice(start[j], start[j + 1] - (1 if j > 0 else 0), step))' --only 'indexing:index'
 echo "selected=$n"
 exit $fail
